@@ -26,6 +26,14 @@ var (
 	// that the upstream server is unhealthy.
 	ErrResolutionAttemptLimit = errors.New("resolution attempt limit exceeded")
 
+	// ErrResolutionCapacity identifies load shedding: the resolver refused
+	// to start a lookup because its in-flight slots (overall or for one
+	// zone) were taken. It says that this process was busy when this
+	// request arrived, not that any authority failed, so it is
+	// request-local like the limits above: it must reach the one client
+	// as SERVFAIL and never the failure cache.
+	ErrResolutionCapacity = errors.New("resolution capacity exceeded")
+
 	// ErrFailureProbeLimit identifies a follower shed after the bounded
 	// re-election of an expired RFC 9520 failure probe. The limit belongs to
 	// one request cohort and must never create shared failure-cache state.
@@ -411,6 +419,7 @@ func BeginResolutionAttemptCanonical(
 func IsRequestLocalResolutionError(err error) bool {
 	return errors.Is(err, ErrRecursionWorkLimit) ||
 		errors.Is(err, ErrResolutionAttemptLimit) ||
+		errors.Is(err, ErrResolutionCapacity) ||
 		errors.Is(err, ErrFailureProbeLimit) ||
 		errors.Is(err, ErrMaxRecursion) ||
 		errors.Is(err, context.Canceled) ||
